@@ -144,6 +144,17 @@ func VerifH_C12_Scope() {
 		{`($a := x; $g := function(){($a := y; $a)}; [$g(), $a])`, []interface{}{y, x}}, // assignment in callee block is local
 		{`($add := function($p){function($q){$p + $q}}; $add(x)(0))`, x + 0}, // returned closure
 		{`$map([x], function($v){$v})`, []interface{}{x}},                   // lambda passed to a higher-order built-in
+		// every call runs in a new scope, whatever the number of parameters and the shape of the body
+		{`($a := x; $f := function(){$a := y}; [$f(), $a])`, []interface{}{y, x}},
+		{`($a := x; $f := function($p){$a := y}; [$f(0), $a])`, []interface{}{y, x}},
+		{`($a := x; $f := function($p, $q){$a := $q}; [$f(0, y), $a])`, []interface{}{y, x}},
+		{`($a := x; $f := function(){$a := y}; $f(); $f(); $a)`, x},
+		{`($a := x; $f := function(){$a := y}; $g := function(){$f()}; [$g(), $a])`, []interface{}{y, x}},
+		{`($a := x; $f := function($v){$a := $v}; $r := y ~> $f; [$r, $a])`, []interface{}{y, x}},
+		{`($a := x; $r := $map([y], function($v){$a := $v}); [$r, $a])`, []interface{}{y, x}},
+		{`($f := function(){$z := y}; $f(); $z)`, nil},                      // a callee's binding is invisible to the caller
+		{`($f := function($p){$p}; $f(x); $p)`, nil},                        // parameters are invisible to the caller
+		{`($a := x; $f := function(){$a}; $h := function($a){$f()}; $h(y))`, x}, // lexical, not dynamic, scoping
 	}
 	c := cases[verifChoose(len(cases))]
 	verifNote(c.expr)
